@@ -16,12 +16,20 @@ from ..hdriver import HState
 from ..runner import pmap, seeded_order
 
 
+def _mk(cfg):
+    sc = cfg.get("state_class")
+    if sc:
+        mod, name = sc.split(":")
+        return getattr(importlib.import_module(mod), name)(cfg)
+    return HState(cfg)
+
+
 def expand(unit):
     cfg_ref, hist, events, checks = unit
     cfg = _cfg(cfg_ref)
     out = []
     for ev in events:
-        st = HState(cfg)
+        st = _mk(cfg)
         try:
             for e in hist:
                 st.apply(e)
@@ -57,7 +65,7 @@ def bfs(cfg_ref, alphabet: list[dict], depth: int, jobs: int, seed: int = 0, che
     cfg = _cfg(cfg_ref)  # build templates in the parent
     checks = tuple(checks or ("C01", "C02", "C03", "C04", "C05", "C13"))
     t0 = time.time()
-    st = HState(cfg)
+    st = _mk(cfg)
     seen = {st.canon()}
     failures = []
     try:
@@ -138,7 +146,7 @@ def bfs(cfg_ref, alphabet: list[dict], depth: int, jobs: int, seed: int = 0, che
 def replay_history(cfg_ref, history: list[dict], checks=None) -> list:
     cfg = _cfg(cfg_ref)
     checks = tuple(checks or ("C01", "C02", "C03", "C04", "C05", "C13"))
-    st = HState(cfg)
+    st = _mk(cfg)
     try:
         for e in history:
             st.apply(e)
